@@ -35,20 +35,34 @@ Definition jv_spec (s : st) (e : ev) : jv :=
    of the history so far *)
 Inductive hev := HE (e : ev) | HRunY (j : nat).
 
-Fixpoint run_hevs (valid : list Z) (s : st) (G : ghosts) (ylog : list nat) (h : list hev)
-  : list jv * (st * ghosts) :=
+(* tokens whose object carries the 'PID reused' flag *)
+Definition flagged (s : st) : list nat := filter (fun o => o_reused (heap s o)) (seq 0 (nobj s)).
+
+(* [ent]: for every generator whose body was entered, the tokens flagged at that moment;
+   [bad]: some generator yielded an object that was already flagged when it was entered *)
+Fixpoint run_hevs (valid : list Z) (s : st) (G : ghosts) (ylog : list nat) (ent : list (nat * list nat)) (bad : bool)
+         (h : list hev) : list jv * (st * ghosts * bool) :=
   match h with
-  | [] => ([], (s, G))
+  | [] => ([], (s, G, bad))
   | he :: r =>
     match (match he with
            | HE e => Some e
            | HRunY j => option_map IsRunning (nth_error ylog j)
            end) with
-    | None => let (js, fin) := run_hevs valid s G ylog r in (JC "Skip" [] :: js, fin)
+    | None => let (js, fin) := run_hevs valid s G ylog ent bad r in (JC "Skip" [] :: js, fin)
     | Some e =>
       let '(s', G', o) := istep valid (s, G) e in
       let ylog' := match o with OYield _ ob _ => ylog ++ [ob] | _ => ylog end in
-      let (js, fin) := run_hevs valid s' G' ylog' r in
+      let ent' := match e with
+                  | IterNext g => if negb (gh_started (G g)) && gh_started (G' g) then (g, flagged s) :: ent else ent
+                  | _ => ent
+                  end in
+      let bad' := match e, o with
+                  | IterNext g, OYield _ ob _ =>
+                    bad || existsb (fun gf => Nat.eqb (fst gf) g && existsb (Nat.eqb ob) (snd gf)) ent'
+                  | _, _ => bad
+                  end in
+      let (js, fin) := run_hevs valid s' G' ylog' ent' bad' r in
       (JL [jv_out o; jv_snapshot s'; jv_spec s e] :: js, fin)
     end
   end.
@@ -64,8 +78,8 @@ Definition any_unjustified_skip (sg : st * ghosts) : bool :=
   existsb (fun g => unjustified_skip (snd sg g)) (seq 0 (ngen (fst sg))).
 
 Definition run_hist (valid : list Z) (h : list hev) : jv :=
-  let (js, fin) := run_hevs valid init (fun _ => gh_none) [] h in
-  JL [ JL js; jbool (any_skip_class fin); jbool (any_unjustified_skip fin) ].
+  let (js, fin) := run_hevs valid init (fun _ => gh_none) [] [] false h in
+  JL [ JL js; jbool (any_skip_class (fst fin)); jbool (any_unjustified_skip (fst fin)); jbool (snd fin) ].
 
 (* text level: pids() over a directory listing *)
 Definition jv_pl (pl : list Z * Z) : jv := JL [jv_zs (fst pl); JZ (snd pl)].
